@@ -546,8 +546,22 @@ def gen_pattern(r, max_pat=5):
     else:
         ref = patterns(r.randrange(1, max_pat + 1))
     kind = r.choice(["independent", "copy", "translated", "subset", "empty", "mixed",
-                     "mixed"])
-    if kind == "copy":
+                     "mixed", "partial", "partial"])
+    if kind == "partial":
+        # every occurrence keeps only part of its notes, so cardinality scores
+        # land between the 0.5 and 0.75 occurrence thresholds
+        est = []
+        for p in ref:
+            occs = []
+            for o in p:
+                o2 = list(o)
+                k = max(1, int(round(len(o2) * r.choice([0.5, 0.6, 0.67, 0.7, 0.8]))))
+                o2 = o2[:k] + [(t + 0.125, m + 1.0) for t, m in o2[k:]]
+                occs.append(o2)
+            est.append(occs)
+        if r.random() < 0.3:
+            est += patterns(1)
+    elif kind == "copy":
         est = copy.deepcopy(ref)
     elif kind == "translated":
         est = [[_translate(o, 8.0, 2.0) for o in p] for p in ref]
